@@ -750,6 +750,7 @@ void *tickit_watch_process(Tickit *t, pid_t pid, TickitBindFlags flags, TickitCa
 void tickit_watch_cancel(Tickit *t, void *_watch)
 {
   TickitWatch *watch = _watch;
+  bool found = false;
 
   TickitWatch **thisp;
   switch(watch->type) {
@@ -809,12 +810,28 @@ void tickit_watch_cancel(Tickit *t, void *_watch)
       }
 
       free(this);
+      found = true;
     }
 
     if(!thisp || !*thisp)
       break;
 
     thisp = &(*thisp)->next;
+  }
+
+  if(!found && watch->type == WATCH_LATER) {
+    /* Not in t->laters: tickit_evloop_invoke_timers() has detached the batch it
+     * belongs to and has not finished with this entry yet. The loop still owns
+     * the memory; give the notification now and mark the entry so that the loop
+     * skips it
+     */
+    if(watch->flags & TICKIT_BIND_UNBIND)
+      (*watch->fn)(t, TICKIT_EV_UNBIND, NULL, watch->user);
+
+    if(t->evhooks->cancel_later)
+      (*t->evhooks->cancel_later)(t->evdata, watch);
+
+    watch->type = WATCH_NONE;
   }
 }
 
@@ -871,7 +888,15 @@ void tickit_evloop_invoke_timers(Tickit *t)
   }
 
   while(later) {
-    (*later->fn)(later->t, TICKIT_EV_FIRE|TICKIT_EV_UNBIND, NULL, later->user);
+    /* WATCH_NONE: cancelled by an earlier callback of this iteration */
+    if(later->type == WATCH_LATER) {
+      /* this invocation is the unbind notification: cancelling the entry from
+       * inside its own callback must not give it another one
+       */
+      later->flags &= ~TICKIT_BIND_UNBIND;
+
+      (*later->fn)(later->t, TICKIT_EV_FIRE|TICKIT_EV_UNBIND, NULL, later->user);
+    }
 
     TickitWatch *next = later->next;
     free(later);
